@@ -26,3 +26,33 @@ pub fn undo_delete_sheet_head(&mut self, sheet: &u32, old_data: &Box<WorksheetSh
 //@end
     Ok(())
 }
+
+    // the selected sheet as the user model reads it (ui.rs; stub: an uninterpreted function of the engine's call log)
+    pub uninterp spec fn selected(&self) -> u32;
+    #[verifier::external_body]
+    pub fn get_selected_sheet(&self) -> (r: u32) ensures r == self.selected() { unimplemented!() }
+
+/// redo / undo of MoveSheet: the sheet is moved (back), and the selection follows the SAME sheet through the move
+pub fn redo_move_sheet(&mut self, sheet_index: &u32, new_index: &u32) -> (r: Result<(), String>)
+    requires old(self).selected() < 4294967295
+    ensures r.is_ok() ==> final(self).model.log() == old(self).model.log()
+        + seq![Call::MoveSheet(*sheet_index, *new_index), Call::SelectSheet(moved_index(old(self).selected() as int, *sheet_index as int, *new_index as int) as u32)]
+{
+    let ghost sel0 = self.selected();
+//@arm base/src/user_model/undo_redo.rs UserModel::apply_diff_list `Diff::MoveSheet {`
+//@after `let selected = self.get_selected_sheet();`
+                    assert(selected == sel0);
+//@end
+    ;
+    Ok(())
+}
+pub fn undo_move_sheet(&mut self, sheet_index: &u32, new_index: &u32) -> (r: Result<(), String>)
+    requires old(self).selected() < 4294967295
+    ensures r.is_ok() ==> final(self).model.log() == old(self).model.log()
+        + seq![Call::MoveSheet(*new_index, *sheet_index), Call::SelectSheet(moved_index(old(self).selected() as int, *new_index as int, *sheet_index as int) as u32)]
+{
+//@arm base/src/user_model/undo_redo.rs UserModel::apply_undo_diff_list `Diff::MoveSheet {`
+//@end
+    ;
+    Ok(())
+}
